@@ -13,6 +13,10 @@ from simprocesd.model.factory_floor import (Asset, Part, PartGenerator, Batch, P
                                             PartFlowController, DecisionGate, Group, PartBatcher,
                                             PartProcessor, Source, Buffer, Sink, Maintainer)
 from simprocesd.model.factory_floor.group import GroupPath, GroupInput, GroupOutput
+from simprocesd.model.factory_floor.action_scheduler import ActionScheduler
+from simprocesd.model.sensors import PeriodicSensor, AttributeProbe
+from simprocesd.model.sensors.part_sensor import OutputPartSensor
+from simprocesd.model.cms.cms import Cms
 
 HARNESS_ID = -7          # asset id of injected operations: matches no asset
 INF = float('inf')
@@ -289,6 +293,58 @@ class AddValue:
                 p.quality += self.dq
 
 
+class SchedObj:
+    '''Plain object registered with an ActionScheduler / probed by sensors.'''
+
+    def __init__(self, name):
+        self.name = name
+        self.x = [0]          # mutated IN PLACE by the 'bump' operation (sensors must have stored a copy)
+        self.n = 0
+        self.block_input = False
+
+
+class HScheduler(ActionScheduler):
+    '''ActionScheduler whose default action logs the call and, like examples/OperatingSchedule.py, blocks the
+    input of the registered object in state "off".'''
+
+    def __init__(self, *a, hub=None, **kw):
+        self.hub = hub
+        super().__init__(*a, **kw)
+
+    def default_action(self, obj, time, new_state):
+        self.hub.tlog.append(('sched_action', self.name, obj.name, time, new_state, 'default'))
+        if hasattr(obj, 'block_input'):
+            obj.block_input = (new_state == 'off')
+
+
+class OverrideAction:
+    def __init__(self, hub):
+        self.hub = hub
+
+    def __call__(self, sched, obj, time, new_state):
+        self.hub.tlog.append(('sched_action', sched.name, obj.name, time, new_state, 'override'))
+
+
+class SenseCallback:
+    def __init__(self, hub, n):
+        self.hub = hub
+        self.n = n
+
+    def __call__(self, sensor, time, values):
+        import copy
+        self.hub.tlog.append(('sense_cb', sensor.name, self.n, time, copy.deepcopy(values)))
+
+
+class HCms(Cms):
+    def __init__(self, *a, hub=None, **kw):
+        self.hub = hub
+        super().__init__(*a, **kw)
+
+    def on_sense(self, sensor, time, data):
+        import copy
+        self.hub.tlog.append(('cms', self.name, sensor.name, time, copy.deepcopy(data)))
+
+
 class OpAction:
     '''Injected environment operation, delivered as a real event.'''
 
@@ -424,6 +480,8 @@ class LineWorld:
                 c = d.get('capacity')
                 o = Maintainer(name, INF if c is None else c, d.get('value', 0))
                 self.maintainer = o
+            elif k in ('obj', 'scheduler', 'psensor', 'osensor', 'cms'):
+                o = self.make_aux(d)
             else:
                 raise HarnessError(f'unknown device kind {k}')
             self.dev[name] = o
@@ -452,6 +510,35 @@ class LineWorld:
                 a.give_part = GiveWrap(self.hub, a)
         self.id_counter = Asset._id_counter
         Asset._id_counter, System._instance = saved
+
+    def make_aux(self, d):
+        '''Schedulers, sensors, CMS and plain objects (also used for assets created while running, C20).'''
+        k, name = d['kind'], d['name']
+        if k == 'obj':
+            return SchedObj(name)
+        if k == 'scheduler':
+            o = HScheduler([tuple(x) for x in d['schedule']], name, d.get('cyclical', True), hub=self.hub)
+            for tgt, mode in d.get('targets', []):
+                o.register_object(self.dev[tgt], None if mode == 'default' else OverrideAction(self.hub))
+            return o
+        if k in ('psensor', 'osensor'):
+            cap = d.get('data_capacity')
+            cap = INF if cap is None else cap
+            if k == 'psensor':
+                probes = [AttributeProbe(attr, self.dev[tgt]) for tgt, attr in d['probes']]
+                o = PeriodicSensor(d['interval'], probes, name, cap)
+            else:
+                probes = [AttributeProbe(attr, None) for attr in d['probes']]
+                o = OutputPartSensor(self.dev[d['processor']], probes, d.get('sensing_interval', 0), name, cap)
+            for n in range(d.get('callbacks', 1)):
+                o.add_on_sense_callback(SenseCallback(self.hub, n))
+            return o
+        if k == 'cms':
+            o = HCms(self.maintainer, name, hub=self.hub)
+            for sname in d.get('sensors', []):          # a name listed twice = add_sensor called twice
+                o.add_sensor(self.dev[sname])
+            return o
+        raise HarnessError(f'unknown auxiliary kind {k}')
 
     def _init_like_simulate(self):
         '''Exactly what System.simulate()/Environment.run() do before the loop.'''
@@ -697,6 +784,16 @@ class LineWorld:
             hub.tlog.append(('upstream', op[1], tuple(op[2])))
         elif k == 'cycle':
             self.dev[op[1]].cycle_time = op[2]
+        elif k == 'reg':
+            r = self.dev[op[1]].register_object(self.dev[op[2]], None if op[3] == 'default' else OverrideAction(hub))
+            hub.tlog.append(('reg', op[1], op[2], op[3], bool(r)))
+        elif k == 'unreg':
+            r = self.dev[op[1]].unregister_object(self.dev[op[2]])
+            hub.tlog.append(('unreg', op[1], op[2], bool(r)))
+        elif k == 'bump':
+            o = self.dev[op[1]]
+            o.x[0] += 1           # in place: a sensor that stored a reference instead of a copy is exposed
+            o.n += 1
         else:
             raise HarnessError(f'unknown op {op}')
 
